@@ -176,9 +176,9 @@ pub struct Case {
     /// constraint of the parent type in contexts 15, 16, 19
     pub parent: Option<Atom>,
 }
-pub const CTX_NAMES: [&str; 26] = [
+pub const CTX_NAMES: [&str; 27] = [
     "INTEGER-assignment", "INTEGER-component", "constrained-reference-assignment", "constrained-reference-component", "value-reference-endpoints", "named-number-endpoints",
-    "OCTET-STRING-SIZE-assignment", "BIT-STRING-SIZE-component", "IA5String-SIZE-assignment", "SEQUENCE-OF-SIZE-assignment", "SET-OF-SIZE-component", "BMPString-SIZE-component", "named-numbers-of-referenced-type", "INTEGER-object-set-alternative", "OCTET-STRING-SIZE-object-set-alternative", "constrained-parent-assignment", "constrained-parent-component", "OCTET-STRING-SIZE-per-operand-assignment", "IA5String-SIZE-per-operand-component", "constrained-parent-SIZE-assignment", "OCTET-STRING-SIZE-value-reference-endpoints", "BIT-STRING-SIZE-component-value-reference-endpoints", "SEQUENCE-OF-SIZE-value-reference-endpoints", "string-SIZE-component-value-reference-endpoints", "SEQUENCE-OF-element-reference-assignment", "SET-OF-element-reference-component",
+    "OCTET-STRING-SIZE-assignment", "BIT-STRING-SIZE-component", "IA5String-SIZE-assignment", "SEQUENCE-OF-SIZE-assignment", "SET-OF-SIZE-component", "BMPString-SIZE-component", "named-numbers-of-referenced-type", "INTEGER-object-set-alternative", "OCTET-STRING-SIZE-object-set-alternative", "constrained-parent-assignment", "constrained-parent-component", "OCTET-STRING-SIZE-per-operand-assignment", "IA5String-SIZE-per-operand-component", "constrained-parent-SIZE-assignment", "OCTET-STRING-SIZE-value-reference-endpoints", "BIT-STRING-SIZE-component-value-reference-endpoints", "SEQUENCE-OF-SIZE-value-reference-endpoints", "string-SIZE-component-value-reference-endpoints", "SEQUENCE-OF-element-reference-assignment", "SET-OF-element-reference-component", "named-numbers-of-referenced-type-component",
 ];
 impl Case {
     fn is_size(&self) -> bool {
@@ -210,7 +210,7 @@ impl Case {
     fn emit(&self, n: usize, src: &mut String) -> (String, Option<String>) {
         let sp = match self.ctx {
             4 | 20..=23 => 1,
-            5 | 12 => 2,
+            5 | 12 | 26 => 2,
             _ => 0,
         };
         let mut names = vec![];
@@ -306,6 +306,19 @@ impl Case {
                     src.push_str(&format!("Ta{n}decoy ::= INTEGER {{ {} }}\nTb{n}gov ::= INTEGER {{ {} }}\nTq{n} ::= Tb{n}gov {c}\n", dd.join(", "), nn.join(", ")));
                 }
                 (format!("Tq{n}"), None)
+            }
+            26 => {
+                // the same in component position: `fq1 Tb<n>gov (0..limit)`; the decoys (an INTEGER and an ENUMERATED that sort
+                // before the governing type) declare the same names with other numbers
+                let nn: Vec<String> = names.iter().map(|(nm, v)| format!("{nm}({v})")).collect();
+                let dd: Vec<String> = names.iter().map(|(nm, v)| format!("{nm}({})", v + 1000)).collect();
+                if nn.is_empty() {
+                    src.push_str(&format!("Tq{n} ::= SEQUENCE {{ fq1 INTEGER {c} }}\n"));
+                } else {
+                    let en: Vec<String> = names.iter().map(|(nm, _)| nm.clone()).collect();
+                    src.push_str(&format!("Ta{n}decoy ::= INTEGER {{ {} }}\nTa{n}enum ::= ENUMERATED {{ zq{n}first, {} }}\nTb{n}gov ::= INTEGER {{ {} }}\nTq{n} ::= SEQUENCE {{ fq1 Tb{n}gov {c} }}\n", dd.join(", "), en.join(", "), nn.join(", ")));
+                }
+                (format!("Tq{n}"), Some("fq1".into()))
             }
             13 | 14 => {
                 // alternative of an information object set (compiled with `opaque_open_types: false`): the bound sits on the
@@ -604,7 +617,7 @@ fn check_batch(cases: &[Case], rep: &mut Report) {
             let ctxc = match c.ctx {
                 0 | 4 | 5 => "assignment",
                 1 => "component",
-                2 | 3 | 12 | 15 | 16 | 19 => "constrained-reference",
+                2 | 3 | 12 | 15 | 16 | 19 | 26 => "constrained-reference",
                 24 | 25 => "collection-element",
                 13 | 14 => "object-set-alternative",
                 _ => "size",
@@ -847,7 +860,10 @@ pub fn run(ctx: &Ctx) -> Report {
     let nrand = ctx.pick(40_000u64, 800_000);
     for i in 0..nrand {
         let mut rng = Rng::for_case(ctx.seed, 4, i);
-        let c = rng.below(13) as u8;
+        let c = match rng.below(14) {
+            13 => 26,
+            x => x,
+        } as u8;
         let pool = if (6..=11).contains(&c) { &sat7 } else { &at7 };
         let expr = random_expr(&mut rng, pool, 4);
         let serial = if rng.chance(1, 5) { Some((random_expr(&mut rng, pool, 1), rng.chance(1, 4))) } else { None };
